@@ -4,7 +4,7 @@ from common import *
 import vm_corr, vm_checks, progs
 
 PROP_MODULE = "NeverModel.Props.C15"
-REQUIRED = ["Never.C15.mark_ret_roundtrip", "Never.C15.first_execute_initialises_once"]
+REQUIRED = ["Never.C15.mark_ret_roundtrip", "Never.C15.execute_restores_sp", "Never.C15.first_execute_initialises_once"]
 
 API_PROG = """
 var total = %d;
